@@ -301,12 +301,25 @@ inductive ShelveErr where
   | reoccupied
   deriving DecidableEq, Repr
 
-/-- the id that holds, in the working tree, the (parent, name) a deleted id had in the basis -/
+/-- `id2path`: the names from the root down to `i` (`none` when the parent chain is broken or loops) -/
+def pathOf (t : Tree) : Nat → Id → Option (List Nat)
+  | 0, _ => none
+  | fuel + 1, i =>
+    match t i with
+    | none => none
+    | some e =>
+      match e.parent with
+      | none => some []
+      | some p => (pathOf t fuel p).map (· ++ [e.name])
+
+/-- the id that holds, in the working tree, the path a deleted id had in the basis
+(`work_tree.has_filename(target_tree.id2path(file_id))`) -/
 def occupant (ids : List Id) (b w : Tree) (i : Id) : Option Id :=
   match b i, w i with
-  | some be, none => ids.find? fun j => j != i && match w j with
-      | some we => we.parent == be.parent && we.name == be.name
-      | none => false
+  | some _, none =>
+    match pathOf b (ids.length + 1) i with
+    | some path => ids.find? fun j => j != i && pathOf w (ids.length + 1) j == some path
+    | none => none
   | _, _ => none
 
 /-- selected deletions whose old path is held by another versioned id, with that id -/
